@@ -18,6 +18,10 @@ pub enum Op {
     Fp,
     IntoOwned,
     Clone,
+    /// look at the builder without changing it: byte_len(), build(), write_into() an exact-size and
+    /// a larger buffer, has_attribute; whatever the builder remembers from being looked at must not
+    /// show later
+    Measure,
 }
 
 impl Op {
@@ -30,6 +34,7 @@ impl Op {
             Op::Fp => "FP".into(),
             Op::IntoOwned => "OWN".into(),
             Op::Clone => "CLONE".into(),
+            Op::Measure => "MEASURE".into(),
         }
     }
     pub fn from_text(s: &str) -> Op {
@@ -42,6 +47,7 @@ impl Op {
             "FP" => Op::Fp,
             "OWN" => Op::IntoOwned,
             "CLONE" => Op::Clone,
+            "MEASURE" => Op::Measure,
             _ => panic!("harness: bad op text {s}"),
         }
     }
@@ -153,6 +159,17 @@ pub fn execute(prog: &Prog, mut observe: impl FnMut(usize, &Result<(), WErr>, &M
                 b = b.clone();
                 Ok(())
             }
+            Op::Measure => {
+                let n = b.byte_len();
+                let _ = b.build();
+                let mut exact = vec![0u8; n];
+                let _ = b.write_into(&mut exact);
+                let mut larger = vec![0xEEu8; n + 24];
+                let _ = b.write_into(&mut larger);
+                let _ = b.has_attribute(AttributeType::new(0x8022));
+                let _ = b.byte_len();
+                Ok(())
+            }
         };
         observe(i, &r, &b);
     }
@@ -237,7 +254,7 @@ impl RefBuilder {
                 self.attrs.push((wire::FP, buf[l - 4..].to_vec()));
                 true
             }
-            Op::IntoOwned | Op::Clone => true,
+            Op::IntoOwned | Op::Clone | Op::Measure => true,
         }
     }
     pub fn bytes(&self) -> Vec<u8> {
